@@ -222,7 +222,7 @@ class C02(Check):
             'names) x padding length (12 values incl. 0, 1, 63..65, page alignment) x record sequence (<=2 (quick) / <=3 '
             '(thorough) over 8 record kinds incl. records beginning with 1,2,7,8 zero bytes and an all-zero record in '
             'non-first position) x both entry points; plus all sequences of <=3 parses over 4 dumps through the same table '
-            'objects in 4 reuse modes; plus two parses ALIVE AT ONCE (3x3 dump pairs), their generators advanced in every interleaving. Oracle: events == independent decode of each record; tables == file map (last wins), '
+            'objects in 4 reuse modes; plus two parses ALIVE AT ONCE (3x3 dump pairs), their generators advanced in every interleaving; plus dumps of 63..4097 records. Oracle: events == independent decode of each record; tables == file map (last wins), '
             'identity preserved, nothing left over. non-trivial = dump has >=1 record and >=1 map entry (or history length >=2). '
             'states = distinct table contents after a parse; transitions = parse calls.')
     assumptions = ('a first record of 64 zero bytes is indistinguishable from padding and is not generated first',
@@ -253,6 +253,7 @@ class C02(Check):
         out = [('dumps', chunk) for chunk in chunked(tms, 64)]
         out.append(('hist',))
         out.append(('concurrent',))
+        out.append(('long',))
         return out
 
     def run_shard(self, desc, acc):
@@ -271,6 +272,23 @@ class C02(Check):
                                                     'entry': entry}, detail)
                         if acc.want_sample() and tm and len(kinds) >= 2:
                             acc.sample({'threadmap': [repr(ENTRIES[i]) for i in tm], 'pad': pad, 'records': list(kinds)})
+        elif desc[0] == 'long':
+            # many records (a reader that batches, caps or recycles buffers is invisible to 3-record dumps)
+            for n in (63, 64, 65, 511, 512, 513, 1500, 4097):
+                recs = [rec(1000 + i, (i, i * 3, 7, 9), 1 + i % 3, 0x040c0004 | (i % 4)) for i in range(n)]
+                for pad in (0, 64):
+                    blob = v2([ENTRIES[0]], pad, recs)
+                    for entry in ('kd', 'facade'):
+                        if entry == 'kd':
+                            got, err, _ = parse_kd(blob, {}, {})
+                        else:
+                            got, err = parse_facade(blob, PyKdebugParser())
+                        exp = [ref_decode(r) for r in recs]
+                        acc.case(nontrivial=True, transitions=n, outcome=h64(('long', n)))
+                        if got != exp or err:
+                            acc.violation('v2-long-dump-events', {'kind': 'long', 'n': n, 'pad': pad, 'entry': entry},
+                                          {'got_n': len(got), 'exp_n': n, 'err': err,
+                                           'first_diff': next((i for i, (x, y) in enumerate(zip(got, exp)) if x != y), None)})
         elif desc[0] == 'concurrent':
             from mc.space import interleavings
             for a, b in itertools.product(C_DUMPS, repeat=2):
@@ -294,6 +312,11 @@ class C02(Check):
         if case['kind'] == 'dump':
             pad = case['pad']
             return judge_dump(tuple(case['tm']), pad, tuple(case['records']), case['entry'])
+        if case['kind'] == 'long':
+            from mc.run import Acc
+            acc = Acc()
+            self.run_shard(('long',), acc)
+            return [(sig, v['cases'][0][1]) for sig, v in acc.violations.items()]
         if case['kind'] == 'concurrent':
             bad = judge_concurrent(case['a'], case['b'], tuple(case['schedule']))
             return [bad] if bad else []
